@@ -23,14 +23,16 @@ RULE = ("seeded histories (quick 300 x 30 steps; thorough: every sequence of len
         "requests of every kind, also through the Scalar/Array constructors), CreateEmpty, CreateDerived, "
         "MakeCopy(map), Quantity/Scalar/Array(+numpy, +list) arithmetic between earlier results and with plain "
         "numbers, conversions, validations, copies, deepcopies, pickle round trips, SetUnknownCaption, "
-        "CreateCopy(unit=); after every step the whole cache is snapshot and compared.  distinct = distinct "
+        "CreateCopy(unit=); multi-entry requests are followed by permuted twins and by arithmetic on their result; "
+        "after every request the caller's containers are mutated; every product/quotient/sum is repeated on an "
+        "emptied database; after every step the whole cache is snapshot and compared.  distinct = distinct "
         "history; non-trivial = at least two quantities were created and one later step involved an earlier one")
 EXHAUSTIVE = {"quick": False, "thorough": False}
 ASSUMPTIONS = [
     "aliasing is a hand-modelled heap of [unit, exp] cells: a missed copy in the real code is caught by the "
     "per-step snapshots of the correspondence, not by the theorems",
-    "containers handed to ObtainQuantity/CreateDerived are not mutated by the caller afterwards (the dict form "
-    "stores the caller's OrderedDict and lists by reference)",
+    "arithmetic on cached quantities is compared with the same operation on a database whose memo tables were "
+    "just cleared (a reused private database with cleared tables is checked against a brand-new one on a sample)",
     "units are str, exponents are int, captions are str or None; values used in arithmetic are non-zero so the "
     "final float operation cannot fail; conversion failures are value independent (C01 convert_total)",
     "the derived strings (_category, _quantity_type, _unit) are observed for stability only; their content is "
@@ -210,15 +212,33 @@ def permuted_twin(rng, o):
     return dict(k="derived", items=perm, cap=cap)
 
 
+def arith_on(rng, idx, i):
+    """a product/quotient/sum whose operand is the result of step `idx` (i = index of the new step)"""
+    sy = rng.choice("*/*/+-")
+    lvl = rng.choice(["q", "s", "s", "anp", "alist"])
+    a, b = idx, (idx if rng.random() < 0.3 else _ref(rng, i))
+    if rng.random() < 0.5:
+        a, b = b, a
+    x = rng.choice([0, 1, 2, 3]) if lvl == "alist" else 0
+    if sy in "+-":
+        return dict(k="same", a=a, b=b, x=x, lvl=lvl, sy=sy)
+    return dict(k="new", div=(sy == "/"), a=a, b=b, x=x, lvl=lvl, sy=sy)
+
+
 def gen_history(rng, n):
     ops = []
     while len(ops) < n:
         o = gen_op(rng, len(ops))
         ops.append(o)
+        idx = len(ops) - 1
         if len(ops) < n and rng.random() < 0.5:
             t = permuted_twin(rng, o)
             if t is not None:
                 ops.append(t)
+        # arithmetic that gets a quantity created from the tuple/list/dict forms back from the cache
+        if (len(ops) < n and o["k"] == "obtain" and o["u"] is not None and o["u"][0] in ("l", "d")
+                and rng.random() < 0.5):
+            ops.append(arith_on(rng, idx, len(ops)))
     return ops
 
 
@@ -398,6 +418,25 @@ class World:
         self.db.quantities_cache.clear()
         self.db._category_unit_valid.clear()
 
+    def shadow(self):
+        """a second private database, emptied before every use: the 'fresh database' arithmetic is compared with"""
+        if getattr(self, "_shadow", None) is None:
+            self._shadow = World()
+        self._shadow.reset()
+        return self._shadow
+
+
+def _mutate(cont):
+    """what a careless caller may do to the containers it passed, after the request returned"""
+    cells = list(cont.values()) if isinstance(cont, dict) else list(cont) if isinstance(cont, (list, tuple)) else []
+    for ue in cells:
+        if isinstance(ue, list) and len(ue) == 2:
+            ue[0], ue[1] = "changed by the caller", 77
+    if isinstance(cont, dict):
+        cont["added by the caller"] = ["m", 5]
+    elif isinstance(cont, list):
+        cont.append(["m", 5])
+
 
 def _py_unit(u):
     if u is None:
@@ -472,6 +511,7 @@ class Run:
         self.req_sigs = []       # ((caption, composing cells | None), identity index) of the successful creation requests
         self.viol = []
         self.notes = {}
+        self.pending = []        # the containers this step handed to the library
 
     # -- bookkeeping
     def note(self, k):
@@ -508,8 +548,10 @@ class Run:
         import numpy as np
 
         k = o["k"]
+        self.pending = []
         if k == "obtain":
             u, c, cap = _py_unit(o["u"]), _py_cat(o["c"]), o["cap"]
+            self.pending += [u, c]
             if o["via"] == "scalar":
                 return Scalar(2.0, u, c).GetQuantity()
             if o["via"] == "array":
@@ -524,16 +566,20 @@ class Run:
                 return Array.CreateEmptyArray().GetQuantity()
             return Quantity.CreateEmpty()
         if k == "derived":
+            m = _py_map(o["items"])
+            self.pending.append(m)
             if o["cap"] is None:
-                return Quantity.CreateDerived(_py_map(o["items"]))
-            return Quantity.CreateDerived(_py_map(o["items"]), o["cap"])
+                return Quantity.CreateDerived(m)
+            return Quantity.CreateDerived(m, o["cap"])
         q = None
         if k in ("mkcopy", "ident", "pickle", "setcap", "withunit"):
             q = self.obj(o["q"])
             if q is None:
                 return None
         if k == "mkcopy":
-            return q.MakeCopy(_py_map(o["items"])) if step % 2 else q.CreateCopyInstance(_py_map(o["items"]))
+            m = _py_map(o["items"])
+            self.pending.append(m)
+            return q.MakeCopy(m) if step % 2 else q.CreateCopyInstance(m)
         if k == "pickle":
             r = pickle.loads(pickle.dumps(q, o.get("proto", 2)))
             if not (r == q and q == r and hash(r) == hash(q) and not (r != q)):
@@ -646,6 +692,63 @@ class Run:
             r = x / y
         return r if lvl == "q" else r.GetQuantity()
 
+    def fresh_compare(self, step, o, a, b, r, q):
+        """products/quotients/sums on cached quantities behave as on a fresh database (operands re-created
+        there from their composing maps in plain list form)"""
+        from barril.units import ObtainQuantity
+        from barril.units._quantity import Quantity
+        from barril.units.unit_database import UnitDatabase
+
+        sh = self.w.shadow()
+        saved = Quantity._EMPTY_QUANTITY
+        Quantity._EMPTY_QUANTITY = None
+        UnitDatabase.PushSingleton(sh.db)
+        try:
+            def again(x):
+                if x == "e":
+                    return "e"
+                cells = [(c[0], [c[1], c[2]]) for c in _cells(x)]
+                cap = x.GetUnknownCaption() or None
+                if x.IsDerived():
+                    return ObtainQuantity(OrderedDict(cells), None, cap)
+                return ObtainQuantity(cells[0][1][0], cells[0][0], cap)
+
+            try:
+                res = self.arith(o, again(a), again(b))
+                fresh = ["ok", [list(c[:3]) for c in _cells(res)], res.GetUnknownCaption() or ""]
+            except Exception as e:
+                fresh = ["err", err_kind(e), type(e).__name__ + ": " + str(e)[:120]]
+        finally:
+            UnitDatabase.PopSingleton()
+            Quantity._EMPTY_QUANTITY = saved
+        if r[0] == "ok":
+            mine = ["ok", [list(c[:3]) for c in _cells(q)], q.GetUnknownCaption() or ""]
+        else:
+            mine = ["err", r[1], r[2] if len(r) > 2 else ""]
+        if mine[:2] != fresh[:2] or (mine[0] == "ok" and mine != fresh):
+            self.note("arithmetic differs from a fresh database")
+            self.bad(step, "arithmetic on cached quantities behaves as on a fresh database", operation=o,
+                     operands=[repr(x) for x in (a, b)],
+                     operand_cells=[None if x == "e" else [list(c) for c in _cells(x)] for x in (a, b)],
+                     here=mine, fresh_database=fresh)
+
+    def caller_mutates(self, step):
+        """the caller changes the containers it passed; no quantity may notice"""
+        if not self.pending:
+            return True
+        for cont in self.pending:
+            _mutate(cont)
+        self.pending = []
+        ok = True
+        for i, q in enumerate(self.known):
+            s = full_snapshot(q)
+            if s != self.snaps[i]:
+                ok = False
+                self.bad(step, "changing the containers passed to a request afterwards does not change any quantity",
+                         identity=i, before=repr(self.snaps[i])[:300], after=repr(s)[:300])
+                break
+        return ok
+
     # -- after every step
     def observe(self, step, result):
         from barril.units._quantity import Quantity
@@ -742,6 +845,9 @@ class Run:
         UnitDatabase.PushSingleton(self.w.db)
         try:
             for step, o in enumerate(ops):
+                a_obj = b_obj = None
+                if o["k"] in ("same", "new"):
+                    a_obj, b_obj = self.obj(o["a"]), self.obj(o["b"])
                 try:
                     q = self.do(step, o)
                     if q is None:
@@ -755,7 +861,14 @@ class Run:
                     q = None
                     r = ["err", err_kind(e)]
                     self.note("error " + type(e).__name__)
+                    if o["k"] in ("same", "new"):
+                        r.append(type(e).__name__ + ": " + str(e)[:120])
                 ob = self.observe(step, q)
+                if not self.caller_mutates(step):
+                    ob["st"] = False
+                if o["k"] in ("same", "new") and r[0] != "skip":
+                    self.fresh_compare(step, o, a_obj, b_obj, r, q if r[0] == "ok" else None)
+                    r = r[:2]
                 if r[0] == "ok":
                     r = ["ok", self.index[id(q)]]
                     self.results.append(r[1])
@@ -922,7 +1035,8 @@ def oracle(c, ctx):
     except Exception as e:
         return dict(clause="history runner raised", error=repr(e))
     if r.viol:
-        v = dict(r.viol[0])
+        first = [v for v in r.viol if v["clause"].startswith("arithmetic on cached quantities")] or r.viol
+        v = dict(first[0])
         v["history_prefix"] = ops[: v["step"] + 1]
         return v
     return None
